@@ -633,7 +633,7 @@ Definition policy_selected (i : input) : bool :=
   | _ => false
   end.
 
-Definition spec_ok (i : input) (o : obs) : bool :=
+Definition spec_cons (i : input) (o : obs) : bool :=
   match o with
   | OPanic => false
   | OConstruct => true
@@ -674,6 +674,39 @@ Definition spec_ok (i : input) (o : obs) : bool :=
       | EUserMeta => true
       end
   end.
+
+(* the level of the statement that applies to the entry point at hand, in ITS document
+   (library verifier only): the OCI document for Verify / SkipVerify / notation.Verify,
+   the blob document for VerifyBlob / notation.VerifyBlob *)
+Definition sel_level (i : input) : option level :=
+  if negb (uses_lib i) then None else
+  match i_entry i with
+  | EVerify | ESkipVerify | ENVerify =>
+      match v_oci (i_v i) with Some (SelLevel l) => Some l | _ => None end
+  | EVerifyBlob | ENVerifyBlob =>
+      match v_blob (i_v i) with Some (SelLevel l) => Some l | _ => None end
+  | EUserMeta => None
+  end.
+
+Definition has_level (n : lname) (x : option outc) : bool :=
+  match x with Some o => opt_eqb lname_eqb (oc_level o) (Some n) | None => true end.
+
+(* every outcome carries the level of that statement; a skip-level statement never fails *)
+Definition level_ok (i : input) (lvl : option lname) (outs : list (option outc)) (err : option errc) : bool :=
+  match sel_level i with
+  | None => true
+  | Some l =>
+      forallb (has_level (name_of l)) outs &&
+      match i_entry i with
+      | EVerify | EVerifyBlob => if is_skip l then is_none err else true
+      | ESkipVerify => opt_eqb lname_eqb lvl (Some (name_of l)) && is_none err
+      | _ => true
+      end
+  end.
+
+Definition spec_ok (i : input) (o : obs) : bool :=
+  spec_cons i o &&
+  match o with ORet _ lvl outs err => level_ok i lvl outs err | _ => true end.
 
 (* ---------- cases ---------- *)
 Record case := mk_case { c_id : N; c_in : input; c_obs : obs }.
